@@ -274,13 +274,56 @@ int main(void)
 			if (it) RES("ok", "true");
 			else { o->unref(); RES("refused", "false"); }
 		}
+		else if (!strcmp(op, "iclear") && drv_nw == 4) {         /* the item at pos gives up its instance (in place) */
+			if (mode != 2 || long_arg(drv_w[3], &pos)) BAD;
+			item<Obj> *it = is[h]->get(pos);
+			if (!it) RES("refused", "null");
+			else { it->set_instance(0); RES("ok", "-"); }
+		}
+		else if (!strcmp(op, "icount") && drv_nw == 3) {         /* count(): items that hold an instance */
+			char ret[24];
+			long n = 0, c;
+			if (mode != 2) BAD;
+			c = is[h]->count();
+			if (const buffer *ib = is[h]->b()) {
+				const uint8_t *d = (const uint8_t *) (ib + 1);
+				for (size_t p = 0; p + stride() <= used_of(ib); p += stride()) if (elem_ptr(d + p)) n++;
+			}
+			if (c != n) mark_illegal("item-count", (unsigned) c);
+			snprintf(ret, sizeof(ret), "%ld", c);
+			RES("ok", ret);
+		}
+		else if (!strcmp(op, "icompact") && drv_nw == 3) {       /* compact(): empty items are removed (in place) */
+			long holes = 0;
+			if (mode != 2) BAD;
+			if (const buffer *ib = is[h]->b()) {
+				const uint8_t *d = (const uint8_t *) (ib + 1);
+				for (size_t p = 0; p + stride() <= used_of(ib); p += stride()) if (!elem_ptr(d + p)) holes++;
+			}
+			if (!is[h]->compact()) {
+				/* "nothing to do" is the only reason to answer false */
+				if (holes) mark_illegal("compact-refused", (unsigned) holes);
+				RES("refused", "false");
+			}
+			else {
+				if (!holes) mark_illegal("compact-nothing", 0);
+				if (const buffer *ib = is[h]->b()) {
+					const uint8_t *d = (const uint8_t *) (ib + 1);
+					for (size_t p = 0; p + stride() <= used_of(ib); p += stride()) if (!elem_ptr(d + p)) mark_illegal("compact-hole", (unsigned) (p / stride()));
+				}
+				RES("ok", "true");
+			}
+		}
 		else if (mode == 2) BAD;
 		else if (!strcmp(op, "rins") && drv_nw == 5) {           /* insert(pos, new object) */
 			if (long_arg(drv_w[3], &pos) || drv_parse_nat(drv_w[4], &b) || b > 1) BAD;
 			mode = 1;
 			Obj *o = obj_new((int) b);
+			/* an array nobody shares accepts every position that is not in front of its start */
+			const buffer *pb = hs[h]->b();
+			int must = (!pb || ref_of(pb) < 2) && (pos >= 0 || (pb && (size_t) -pos <= used_of(pb) / sizeof(void *)));
 			if (hs[h]->insert(pos, o)) RES("ok", "true");
-			else { o->unref(); RES("refused", "false"); }
+			else { if (must) mark_illegal("insert-refused", o->id); o->unref(); RES("refused", "false"); }
 		}
 		else if (!strcmp(op, "rset") && drv_nw == 5) {           /* set(pos, new object) */
 			if (long_arg(drv_w[3], &pos) || drv_parse_nat(drv_w[4], &b) || b > 1) BAD;
